@@ -101,8 +101,9 @@ def mk_ir(case):
                 Food(v, z, z.copy(), "kcals per person per day each month", "effective kcals per person per day each month",
                      "effective kcals per person per day each month"))
     ir.percent_people_fed = unhex(case["pf"])
-    ir.include_protein = False
-    ir.include_fat = False
+    # fat / protein tracked flags of the round-1 results (every shipped simulation: both False)
+    ir.include_protein = bool(case.get("inc_protein", False))
+    ir.include_fat = bool(case.get("inc_fat", False))
     return ir
 
 
